@@ -43,6 +43,8 @@ pub enum Rec {
     Cname(Target),
     Mx(u8, Target),
     Txt(u8),
+    /// a record of another type (46 RRSIG, 47 NSEC, 43 DS, 99, 65280) with opaque RDATA
+    Other(u8),
     /// malformed NS / MX RDATA
     BadNs(Vec<u8>),
     BadMx(Vec<u8>),
@@ -101,6 +103,7 @@ fn render(apex: &MName, r: &Rec) -> (u16, Vec<u8>) {
             (mr::T_MX, rd)
         }
         Rec::Txt(v) => (mr::T_TXT, vec![1, b'a' + *v % 3]),
+        Rec::Other(v) => ([46u16, 47, 43, 99, 65280][*v as usize % 5], vec![1, 2, *v / 5 % 2]),
         Rec::BadNs(b) => (mr::T_NS, b.clone()),
         Rec::BadMx(b) => (mr::T_MX, b.clone()),
     }
@@ -257,6 +260,7 @@ fn case_strategy() -> impl Strategy<Value = Case> {
         2 => tgt().prop_map(Rec::Cname),
         2 => (prop_oneof![1 => Just(0u8), 3 => any::<u8>()], tgt()).prop_map(|(p, t)| Rec::Mx(p, t)),
         1 => any::<u8>().prop_map(Rec::Txt),
+        2 => any::<u8>().prop_map(Rec::Other),
     ];
     let apex_rec = prop_oneof![3 => any::<u8>().prop_map(Rec::Soa), 3 => tgt().prop_map(Rec::Ns), 1 => any::<u8>().prop_map(Rec::A)];
     (
